@@ -572,6 +572,19 @@ func c07Cases(tier string) []c07Case {
 			add(&RIDL{Name: "a.b", Members: []RMember{b[0], {Kind: "type", Name: "T1", Type: t}, b[1]}}, false, "deep")
 		}
 	}
+	// very long lines (a tool-written enum of thousands of values on one line, a documentation line of 70 KB, a method
+	// with thousands of parameters): sizes beyond the 64 KiB token limits of line-oriented readers
+	for _, n := range []int{600, 9000} {
+		var vals []string
+		var fs []RField
+		for i := 0; i < n; i++ {
+			vals = append(vals, fmt.Sprintf("value%05d", i))
+			fs = append(fs, F(fmt.Sprintf("field%05d", i), T("int")))
+		}
+		add(&RIDL{Name: "a.b", Members: []RMember{{Kind: "type", Name: "Big", Type: TEnum(vals...)}, b[1]}}, false, "long-line")
+		add(&RIDL{Name: "a.b", Members: []RMember{b[0], {Kind: "method", Name: "M", In: TStruct(fs...), Out: TStruct()}}}, false, "long-line")
+		add(&RIDL{Name: "a.b", Doc: []string{strings.Repeat("long ", n*3)}, Members: []RMember{b[0], {Kind: "method", Name: "M", In: TStruct(), Out: TStruct(), Doc: []string{"m", strings.Repeat("x", n*12)}}}}, true, "long-line")
+	}
 	// recursive and mutually recursive aliases (legal varlink), used and unused
 	node := RMember{Kind: "type", Name: "Node", Type: TStruct(F("name", T("string")), F("children", TArr(TAlias("Node"))))}
 	nodeOpt := RMember{Kind: "type", Name: "Node", Type: TStruct(F("next", TMaybe(TAlias("Node"))))}
